@@ -38,7 +38,11 @@ static std::string cotree_params(const CO_Tree& t) {
   if (first) o << "-";
   return o.str();
 }
-static bool cotree_valid(const CO_Tree& t) { return t.OK(); }
+// the cached end iterators are compared first: OK() itself walks begin()..end() and would read freed memory when they are stale
+static bool cotree_cached_ok(const CO_Tree& t) {
+  return CO_Tree::const_iterator(t.cached_end) == CO_Tree::const_iterator(t, t.reserved_size + 1) && t.cached_const_end == CO_Tree::const_iterator(t, t.reserved_size + 1);
+}
+static bool cotree_valid(const CO_Tree& t) { return cotree_cached_ok(t) && t.OK(); }
 static bool cotree_usable(CO_Tree& t) {
   CO_Tree z(t); if (!z.OK()) return false;
   t.insert(1000, Coefficient(5)); t.insert(3, Coefficient(7)); if (!t.OK()) return false;
@@ -100,7 +104,7 @@ static void container_scenarios() {
       Desc d2 = ds[(q + 1 + r) % 4]; TreeSt* st = new TreeSt;
       LScn* s = lscn("cotree_assign_" + itos(q) + "_" + itos(r), [st, dd, d2]() { st->x = make_tree(dd.k, dd.l, dd.n); st->t = make_tree(d2.k, d2.l, d2.n); },
                      [st]() { *st->t = *st->x; }, [st]() { delete st->t; delete st->x; st->t = st->x = 0; },
-                     [st]() { return st->x->OK() && st->t->OK(); }, [st]() { return cotree_usable(*st->t); });
+                     [st]() { return st->x->OK() && cotree_valid(*st->t); }, [st]() { return cotree_usable(*st->t); });
       s->container = true;
       { CO_Tree* x = make_tree(dd.k, dd.l, dd.n); CO_Tree* t = make_tree(d2.k, d2.l, d2.n);
         s->params = "assign this:" + cotree_params(*t) + " y:" + cotree_params(*x); delete x; delete t; }
@@ -109,7 +113,7 @@ static void container_scenarios() {
     { TreeSt* st = new TreeSt;
       LScn* s = lscn("cotree_rebuild_" + itos(q), [st, dd]() { st->t = make_tree(dd.k, dd.l, dd.n); },
                      [st]() { st->t->rebuild_bigger_tree(); }, [st]() { delete st->t; st->t = 0; },
-                     [st]() { return st->t->OK(); }, [st]() { return cotree_usable(*st->t); });
+                     [st]() { return cotree_valid(*st->t); }, [st]() { return cotree_usable(*st->t); });
       s->container = true; { CO_Tree* x = make_tree(dd.k, dd.l, dd.n); s->params = "rebuild " + cotree_params(*x); delete x; }
       s->own = [st]() { return cotree_owned(*st->t); }; }
   }
@@ -289,7 +293,8 @@ template <typename D> static void common_domain_scenarios(const std::string& dn,
       (void) x.affine_dimension(); (void) x.contains_integer_point(); (void) x.minimized_constraints(); (void) x.minimized_congruences(); });
     dscn<D>(dn + ".widening" + sfx, [st]() { D* p = mk_dom<D>(0, 3, st); D* q = mk_dom<D>(1, 3, 0); p->upper_bound_assign(*q); delete q; return p; },
             [st]() { return mk_dom<D>(0, 3, (st + 2) % 3); }, [](D& x, const D& y) { x.widening_assign(y); });
-    dscn<D>(dn + ".simplify_using_context" + sfx, X3, Y3, [](D& x, const D& y) { (void) x.simplify_using_context_assign(y); });
+    if (dn != "Octagonal_Shape")   // Octagonal_Shape::simplify_using_context_assign does not terminate on this pair even without any fault (not a C14 matter)
+      dscn<D>(dn + ".simplify_using_context" + sfx, X3, Y3, [](D& x, const D& y) { (void) x.simplify_using_context_assign(y); });
     dscn<D>(dn + ".wrap_assign" + sfx, X3, none, [](D& x, const D&) { Variables_Set vs; vs.insert(Variable(0)); vs.insert(Variable(2)); x.wrap_assign(vs, BITS_8, UNSIGNED, OVERFLOW_WRAPS); });
     dscn<D>(dn + ".drop_some_non_integer_points" + sfx, X3, none, [](D& x, const D&) { x.drop_some_non_integer_points(); });
   }
